@@ -123,15 +123,21 @@ fn apply_matching_pattern_renaming(
              field_order,
              field_name,
              pattern,
-             shorthand: _,
+             shorthand,
              type_,
            }| {
-            let pattern =
-              Box::new(apply_matching_pattern_renaming(pattern, definition_and_uses, new_name));
-            let shorthand = matches!(
+            let originally_same_name = matches!(
               pattern.as_ref(),
               pattern::MatchingPattern::Id(id, _) if id.name.eq(&field_name.name),
             );
+            let pattern =
+              Box::new(apply_matching_pattern_renaming(pattern, definition_and_uses, new_name));
+            // The element becomes (or stays) shorthand when its binder now has the field's name,
+            // but an `f as f` the user wrote out, untouched by this renaming, is left as written.
+            let shorthand = matches!(
+              pattern.as_ref(),
+              pattern::MatchingPattern::Id(id, _) if id.name.eq(&field_name.name),
+            ) && (*shorthand || !originally_same_name);
             pattern::ObjectPatternElement {
               loc: *loc,
               field_order: *field_order,
